@@ -76,6 +76,10 @@ def run(ctx):
         if len(inner) == 1 and h.name:
             ih = [x for x in inner[0].handlers if any("SchemaRepositoryError" in nm for nm in handler_names(x))]
             ok = len(ih) == 1 and len(ih[0].body) == 1 and isinstance(ih[0].body[0], ast.Raise) and ih[0].body[0].exc is not None and norm(ih[0].body[0].exc) == h.name
+            # the handler that turns a failed load into "this type is missing" catches the repository's own error only:
+            # an UnknownType (a ValueError) raised for a dependency further down names the type that is really missing
+            wide = [nm for x in inner[0].handlers for nm in (handler_names(x) or ["<bare except>"]) if nm.split(".")[-1] not in ("SchemaRepositoryError",)]
+            ctx.check("C19.R1", "retry loop: only the repository's own error is translated into the outer UnknownType", not wide, pw.where(inner[0]), f"{pw.name}: the load is also guarded by except {wide}", "an UnknownType raised while loading a dependency (for a file missing further down) is caught and replaced by the outer one: the error names a type whose file is present")
             # what is loaded is the type the UnknownType names: <error>.name reaches the load (directly or through a local)
             want = f"{h.name}.name"
             loads = [c for st in inner[0].body for c in ast.walk(st) if isinstance(c, ast.Call) and c.args]
